@@ -562,12 +562,17 @@ func (d *dataCloser) Close() error {
 
 	expectedResponses := len(d.c.rcpts)
 	if d.c.lmtp {
+		var refused *SMTPError
 		for expectedResponses > 0 {
 			rcpt := d.c.rcpts[len(d.c.rcpts)-expectedResponses]
 			if _, _, err := d.c.readResponse(250); err != nil {
 				if smtpErr, ok := err.(*SMTPError); ok {
 					if d.statusCb != nil {
 						d.statusCb(rcpt, smtpErr)
+					} else if refused == nil {
+						// Nobody is told about per-recipient statuses:
+						// report the first refusal through Close.
+						refused = smtpErr
 					}
 				} else {
 					return err
@@ -580,6 +585,9 @@ func (d *dataCloser) Close() error {
 		// The transaction is over, its recipients must not be reported
 		// again for the next one on this connection.
 		d.c.rcpts = nil
+		if refused != nil {
+			return refused
+		}
 	} else {
 		_, _, err := d.c.readResponse(250)
 		d.c.rcpts = nil
